@@ -431,8 +431,9 @@ class SupvisorsStateModes:
         Finally, a third priority is given to the 'lowest' nick_identifier.
         """
         # priority is given to existing Master instances if already identified
-        all_candidates = self.get_master_identifiers()
-        all_candidates.discard('')
+        # NOTE: discard the Master identifiers declared by remote Supvisors instances but unknown locally
+        all_candidates = {identifier for identifier in self.get_master_identifiers()
+                          if identifier in self.mapper.instances}
         if not all_candidates:
             # no Master identified, so get the running instances
             all_candidates = self.local_state_modes.running_identifiers()
